@@ -1,7 +1,7 @@
 (* C30: HPACK encoding round-trips and respects table limits.  Property theorems only. *)
 From Coq Require Import List ZArith Bool.
 From Bfe Require Import lib.Val lib.Bytes gen.HpackTables model.Huffman model.Hpack run.RunC30
-  proofs.HuffmanProofs proofs.HpackProofs proofs.HpackSeqProofs.
+  proofs.HuffmanProofs proofs.HuffmanEquivProofs proofs.HpackProofs proofs.HpackSeqProofs.
 Import ListNotations.
 Open Scope Z_scope.
 
@@ -70,6 +70,20 @@ Proof. exact C30_central_lemma. Qed.
 Print Assumptions C30_central.
 Example C30_central_nonvacuous : wf_C30 ex_input = true /\ agree_C30 ex_input (run_C30 ex_input) = true.
 Proof. exact ex_input_wf. Qed.
+
+(* The byte-trie decoder (Gallina transcription of addDecoderNode + huffmanDecode with cur/cbits/sbits) equals the
+   RFC bit-level decoder on EVERY byte string: finite sweep over all (trie node, next byte) pairs lifted by
+   induction on the input with the invariant (node path ++ pending bits ++ remaining input) = undecoded bits.
+   Hence it inverts the encoder, and the central theorem also holds with the trie decoder in the model. *)
+Theorem C30_trie_equals_bitlevel : forall v, wf_bytes v = true -> huff_decode v = huff_decode_spec v.
+Proof. exact huff_decode_eq_spec. Qed.
+Print Assumptions C30_trie_equals_bitlevel.
+Theorem C30_hd_ok_trie : hd_ok huff_decode.
+Proof. exact hd_ok_trie. Qed.
+Print Assumptions C30_hd_ok_trie.
+Theorem C30_central_trie : forall i, wf_C30 i = true -> prop_C30 i (run_C30_hd huff_decode i) = true.
+Proof. exact C30_central_trie_lemma. Qed.
+Print Assumptions C30_central_trie.
 
 (* Non-vacuity: a concrete two-block history with repeated fields, a sensitive field, eviction by a small
    limit (L = 100) and size updates 50, 0, 4096; it is well-formed, and run through the TRIE decoder model
